@@ -6,7 +6,9 @@
 //  2. drives the real *ocimem.Registry from 2..16 goroutines over a small key space and
 //     records invocation / response events in real-time order (CHist): Coq searches for
 //     linearisation points, validates them against Mem.step and replays the schedule on the
-//     sectioned model;
+//     sectioned model.  Every call has a context of its own with the lifetime its caller owes it
+//     and no longer (see recorder), and the windows contain paged walks of the listings racing
+//     with deletes of the page ends (see step);
 //  3. forced schedules for the narrow windows (a goroutine holds Registry.mu through a large
 //     PushManifest that fails after hashing, so that a Commit waits exactly between its digest
 //     check and its callback), and stress loops aimed at the methods whose extracted lock
@@ -30,6 +32,7 @@ import (
 	"os"
 	"os/exec"
 	"path/filepath"
+	"runtime/debug"
 	"sort"
 	"strings"
 	"sync"
@@ -75,17 +78,76 @@ type recorder struct {
 	logs [][]event // per thread
 	ex   *memsim.Exec
 	exc  *memsim.Exec // when set: used by doHTTP (a client of a server over the same registry)
+	// Contexts.  No call is made with context.Background(): every call that does not hand out a
+	// BlobWriter has a context of its own that is cancelled as soon as the call has returned
+	// (memsim.Exec.CallCtx - what net/http does to a request context when the handler returns).
+	// A PushBlobChunkedResume is made with a context of the calling thread, which stays live as
+	// long as the thread holds the BlobWriter it got ("the context remains active as long as the
+	// BlobWriter is around"): until the thread resumes again (it drops the older handle), until
+	// release(t) (the thread is done: its handler returns), or - for the handles pinned by the
+	// sequential setup, which the other threads share - until closeAll.  So the holders of one
+	// upload session have different contexts with different lifetimes, and whatever keeps a
+	// context beyond the lifetime its caller gave it and consults it later answers wrongly.
+	holder []context.CancelFunc // per thread: context of the handle the thread resumed last
+	pinned []context.CancelFunc
 }
 
 func newRecorder(reg ociregistry.Interface, nthreads int) *recorder {
-	return &recorder{logs: make([][]event, nthreads), ex: memsim.NewExec(reg, true)}
+	ex := memsim.NewExec(reg, true)
+	ex.CallCtx = true
+	return &recorder{logs: make([][]event, nthreads), ex: ex, holder: make([]context.CancelFunc, nthreads)}
+}
+
+// run makes the call of op by thread t with the context discipline described at recorder.
+func (r *recorder) run(ex *memsim.Exec, t int, op memsim.Op) memsim.Result {
+	if op.Kind != "PushBlobChunked" && op.Kind != "PushBlobChunkedResume" {
+		return ex.Run(op)
+	}
+	ctx, cancel := context.WithCancel(context.Background())
+	res := ex.RunCtx(ctx, op)
+	if res.Kind != "writer" {
+		cancel()
+		return res
+	}
+	if old := r.holder[t]; old != nil {
+		old()
+	}
+	r.holder[t] = cancel
+	return res
+}
+
+// release: thread t is done with the handle it resumed (its handler returns).
+func (r *recorder) release(t int) {
+	if c := r.holder[t]; c != nil {
+		c()
+		r.holder[t] = nil
+	}
+}
+
+// pin: the handle thread t holds now stays live until closeAll (the setup's handle, which the
+// goroutines of the concurrent phase share).
+func (r *recorder) pin(t int) {
+	if c := r.holder[t]; c != nil {
+		r.pinned = append(r.pinned, c)
+		r.holder[t] = nil
+	}
+}
+
+func (r *recorder) closeAll() {
+	for t := range r.holder {
+		r.release(t)
+	}
+	for _, c := range r.pinned {
+		c()
+	}
+	r.pinned = nil
 }
 
 // do runs op on behalf of thread t (each thread is used by one goroutine at a time).
 func (r *recorder) do(t int, op memsim.Op) memsim.Result {
 	o := op
 	r.logs[t] = append(r.logs[t], event{Seq: r.seq.Add(1), T: t, Inv: true, Op: &o})
-	res := r.ex.Run(op)
+	res := r.run(r.ex, t, op)
 	res.Msg = ""
 	r.logs[t] = append(r.logs[t], event{Seq: r.seq.Add(1), T: t, Res: &res})
 	return res
@@ -95,7 +157,7 @@ func (r *recorder) do(t int, op memsim.Op) memsim.Result {
 func (r *recorder) doHTTP(t int, op memsim.Op) memsim.Result {
 	o := op
 	r.logs[t] = append(r.logs[t], event{Seq: r.seq.Add(1), T: t, Inv: true, Op: &o})
-	res := r.exc.Run(op)
+	res := r.run(r.exc, t, op)
 	res.Msg = ""
 	if res.Kind == "err" {
 		res.Code = "" // not compared over HTTP
@@ -190,10 +252,148 @@ func pushBlobOp(repo string, c []byte) memsim.Op {
 	return memsim.Op{Kind: "PushBlob", Repo: repo, Content: c, Desc: &memsim.Desc{Media: "application/octet-stream", Digest: sha(c), Size: int64(len(c))}}
 }
 
+// Listing starts: the keys themselves and strings that are not keys (before, between and after
+// them): a listing resumes after its start whether or not the start is (still) an element.
+var (
+	walkTags   = []string{"t1", "t2", "t3", "t4"} // the tags of a walk window
+	tagStarts  = []string{"", "t0", "t1", "t1x", "t2", "t2~", "t3", "t3.5", "t4", "t9"}
+	repoStarts = []string{"", "a", "a/b", "a/c", "b", "c", "d"}
+)
+
 type window struct {
 	rnd    *rand.Rand
 	chunkN int
 	init   []byte
+}
+
+// A step of a goroutine's plan.  Dyn steps depend on the listing the goroutine received last
+// (a paged walk: every page is one listing call that starts after the last item of the page
+// before; the caller takes Page items of each listing):
+//
+//	"next"    the same listing again, starting after the end of the previous page
+//	"dellast" DeleteTag of the tag the previous page ended with (walks of tags only)
+//
+// What is recorded in the history is the resolved operation.
+type step struct {
+	Op   memsim.Op
+	Dyn  string
+	Page int
+}
+
+// walker is the state of one goroutine's paged walk.
+type walker struct {
+	have bool
+	op   memsim.Op // the listing made last
+	list []string  // its result
+}
+
+func (wk *walker) observe(op memsim.Op, res memsim.Result) {
+	if (op.Kind == "Tags" || op.Kind == "Repositories") && res.Kind == "list" {
+		wk.have, wk.op, wk.list = true, op, res.List
+	}
+}
+
+// pageEnd: the last item of the previous page ("" when the walk has reached the end: it starts again).
+func (wk *walker) pageEnd(page int) string {
+	if len(wk.list) == 0 {
+		return ""
+	}
+	if page < 1 {
+		page = 1
+	}
+	return wk.list[min(page, len(wk.list))-1]
+}
+
+// resolve turns a step into the operation to run now.
+func (wk *walker) resolve(st step) memsim.Op {
+	switch st.Dyn {
+	case "next":
+		if !wk.have {
+			return st.Op
+		}
+		op := wk.op
+		op.Start = wk.pageEnd(st.Page)
+		return op
+	case "dellast":
+		if !wk.have || wk.op.Kind != "Tags" || len(wk.list) == 0 {
+			return st.Op
+		}
+		return memsim.Op{Kind: "DeleteTag", Repo: wk.op.Repo, Tag: wk.pageEnd(st.Page)}
+	}
+	return st.Op
+}
+
+// runPlan runs the steps of one goroutine.
+func runPlan(t int, plan []step, do func(int, memsim.Op) memsim.Result) {
+	var wk walker
+	for _, st := range plan {
+		op := wk.resolve(st)
+		wk.observe(op, do(t, op))
+	}
+}
+
+// randomStep: a step of the concurrent phase - mostly randomOp, sometimes a step of a paged walk.
+func (w *window) randomStep(written [][]byte, tagPool []string) step {
+	r := w.rnd
+	repo := repos[0]
+	if r.Intn(4) == 0 {
+		repo = repos[r.Intn(len(repos))]
+	}
+	switch r.Intn(12) {
+	case 0:
+		// a listing from an arbitrary start
+		if r.Intn(3) == 0 {
+			return step{Op: memsim.Op{Kind: "Repositories", Start: repoStarts[r.Intn(len(repoStarts))]}, Page: 1}
+		}
+		return step{Op: memsim.Op{Kind: "Tags", Repo: repo, Start: tagStarts[r.Intn(len(tagStarts))]}, Page: 1}
+	case 1:
+		return step{Op: memsim.Op{Kind: "Tags", Repo: repo}, Dyn: "next", Page: 1 + r.Intn(2)}
+	case 2:
+		if r.Intn(2) == 0 {
+			return step{Op: memsim.Op{Kind: "DeleteTag", Repo: repo, Tag: tagPool[r.Intn(len(tagPool))]}, Dyn: "dellast", Page: 1 + r.Intn(2)}
+		}
+		return step{Op: memsim.Op{Kind: "DeleteTag", Repo: repo, Tag: tagPool[r.Intn(len(tagPool))]}}
+	}
+	return step{Op: w.randomOp(written)}
+}
+
+// walkPlans: the plans of the first two goroutines of a walk window.  Goroutine 0 walks the tags
+// (or, now and then, the repositories) page by page; goroutine 1 deletes tags, mostly beginning
+// with the one the walker's first page ends with, so that the walker's next start is a key that
+// has just gone.
+func (w *window) walkPlans(repo string, n int) (walk, del []step) {
+	r := w.rnd
+	page := 1 + r.Intn(2)
+	first := memsim.Op{Kind: "Tags", Repo: repo}
+	if r.Intn(8) == 0 {
+		first = memsim.Op{Kind: "Repositories"}
+	}
+	walk = append(walk, step{Op: first, Page: page})
+	for len(walk) < n {
+		st := step{Op: first, Dyn: "next", Page: page}
+		if first.Kind == "Tags" && r.Intn(6) == 0 {
+			st = step{Op: memsim.Op{Kind: "DeleteTag", Repo: repo, Tag: walkTags[0]}, Dyn: "dellast", Page: page}
+		}
+		walk = append(walk, st)
+	}
+	order := r.Perm(len(walkTags))
+	if r.Intn(3) > 0 {
+		// the end of the walker's first page first, then upwards
+		order = nil
+		for i := range walkTags {
+			order = append(order, (page-1+i)%len(walkTags))
+		}
+	}
+	for _, i := range order[:min(n, len(order))] {
+		if r.Intn(5) == 0 {
+			// the tag comes back (bound to another manifest where tags are mutable)
+			mi := r.Intn(2)
+			del = append(del, step{Op: memsim.Op{Kind: "PushManifest", Repo: repo, Tag: walkTags[i], Content: mans[mi], Media: mmedia[mi]}})
+			continue
+		}
+		del = append(del, step{Op: memsim.Op{Kind: "DeleteTag", Repo: repo, Tag: walkTags[i]}})
+	}
+	return walk, del
 }
 
 func (w *window) chunk() []byte {
@@ -273,10 +473,18 @@ func (w *window) randomOp(written [][]byte) memsim.Op {
 }
 
 // runWindow: sequential setup by thread 0, a concurrent phase, sequential probes by thread 0.
-func runWindow(rnd *rand.Rand, nthreads, perThread int, imm bool) histCase {
+//
+// A walk window has more tags (walkTags, all bound by the setup), a goroutine that walks the
+// listing page by page and one that deletes tags meanwhile (walkPlans).
+func runWindow(rnd *rand.Rand, nthreads, perThread int, imm, walk bool) histCase {
 	reg := ocimem.NewWithConfig(&ocimem.Config{ImmutableTags: imm})
 	rec := newRecorder(reg, nthreads)
+	defer rec.closeAll()
 	w := &window{rnd: rnd, init: []byte("init-")}
+	tagPool := tags
+	if walk {
+		tagPool = walkTags
+	}
 	// setup
 	rec.do(0, pushBlobOp(repos[0], blobs[0]))
 	if rnd.Intn(2) == 0 {
@@ -291,22 +499,38 @@ func runWindow(rnd *rand.Rand, nthreads, perThread int, imm bool) histCase {
 			rec.do(0, memsim.Op{Kind: "PushManifest", Repo: repos[0], Tag: t, Content: mans[i], Media: mmedia[i]})
 		}
 	}
+	if walk {
+		for _, t := range walkTags {
+			if rnd.Intn(8) > 0 {
+				mi := rnd.Intn(2)
+				rec.do(0, memsim.Op{Kind: "PushManifest", Repo: repos[0], Tag: t, Content: mans[mi], Media: mmedia[mi]})
+			}
+		}
+	}
 	rec.do(0, memsim.Op{Kind: "PushBlobChunkedResume", Repo: repos[0], ID: "up0", Off: 0})
 	rec.do(0, memsim.Op{Kind: "WWrite", W: 0, Content: w.init})
+	rec.pin(0) // the goroutines of the concurrent phase share the handle of the setup
 	// plan the concurrent phase; contents the buffer may reach: init + chunks in any order
-	plans := make([][]memsim.Op, nthreads)
+	plans := make([][]step, nthreads)
 	var writes [][]byte
 	for t := 0; t < nthreads; t++ {
 		for k := 0; k < perThread; k++ {
 			// placeholder digest candidates are fixed up below
-			plans[t] = append(plans[t], memsim.Op{})
+			plans[t] = append(plans[t], step{})
 		}
+	}
+	if walk {
+		plans[0], plans[1] = w.walkPlans(repos[0], 3+rnd.Intn(2))
 	}
 	// first decide where the writes go so that commit digests can name reachable contents
 	cands := [][]byte{w.init}
 	for t := 0; t < nthreads; t++ {
 		for k := range plans[t] {
-			op := w.randomOp(cands)
+			if plans[t][k].Op.Kind != "" {
+				continue
+			}
+			st := w.randomStep(cands, tagPool)
+			op := st.Op
 			if op.Kind == "WWrite" {
 				writes = append(writes, op.Content)
 				var more [][]byte
@@ -318,7 +542,7 @@ func runWindow(rnd *rand.Rand, nthreads, perThread int, imm bool) histCase {
 					cands = cands[:16]
 				}
 			}
-			plans[t][k] = op
+			plans[t][k] = st
 		}
 	}
 	var start atomic.Bool
@@ -331,9 +555,8 @@ func runWindow(rnd *rand.Rand, nthreads, perThread int, imm bool) histCase {
 			ready.Done()
 			for !start.Load() {
 			}
-			for _, op := range plans[t] {
-				rec.do(t, op)
-			}
+			runPlan(t, plans[t], rec.do)
+			rec.release(t) // the goroutine is done: the context of the handle it resumed ends
 		}(t)
 	}
 	ready.Wait()
@@ -345,7 +568,10 @@ func runWindow(rnd *rand.Rand, nthreads, perThread int, imm bool) histCase {
 	}
 	start.Store(true)
 	wg.Wait()
-	// probes
+	// probes (by the holder of the setup's handle, whose context is live)
+	if rnd.Intn(2) == 0 {
+		rec.do(0, memsim.Op{Kind: "WWrite", W: 0, Content: []byte("<probe>")})
+	}
 	rec.do(0, memsim.Op{Kind: "WSize", W: 0})
 	for _, c := range cands {
 		if rnd.Intn(3) == 0 {
@@ -354,7 +580,15 @@ func runWindow(rnd *rand.Rand, nthreads, perThread int, imm bool) histCase {
 	}
 	rec.do(0, memsim.Op{Kind: "GetTag", Repo: repos[0], Tag: tags[0]})
 	rec.do(0, memsim.Op{Kind: "Tags", Repo: repos[0]})
-	return histCase{Kind: "history", Origin: "random", Imm: imm, NThreads: nthreads, Events: rec.events(), Contents: cands}
+	rec.do(0, memsim.Op{Kind: "Tags", Repo: repos[0], Start: tagStarts[rnd.Intn(len(tagStarts))]})
+	if rnd.Intn(4) == 0 {
+		rec.do(0, memsim.Op{Kind: "Repositories", Start: repoStarts[rnd.Intn(len(repoStarts))]})
+	}
+	sc := ""
+	if walk {
+		sc = "walk"
+	}
+	return histCase{Kind: "history", Origin: "random", Scenario: sc, Imm: imm, NThreads: nthreads, Events: rec.events(), Contents: cands}
 }
 
 // httpOp draws an operation whose HTTP form is exactly one backend call.
@@ -389,9 +623,26 @@ func (w *window) httpOp() memsim.Op {
 	}
 }
 
+// httpStep: httpOp, or a step of a paged walk (one request per page: tags/list?last=...).
+func (w *window) httpStep(tagPool []string) step {
+	r := w.rnd
+	switch r.Intn(10) {
+	case 0:
+		if r.Intn(3) == 0 {
+			return step{Op: memsim.Op{Kind: "Repositories", Start: repoStarts[r.Intn(len(repoStarts))]}, Page: 1}
+		}
+		return step{Op: memsim.Op{Kind: "Tags", Repo: repos[0], Start: tagStarts[r.Intn(len(tagStarts))]}, Page: 1}
+	case 1:
+		return step{Op: memsim.Op{Kind: "Tags", Repo: repos[0]}, Dyn: "next", Page: 1 + r.Intn(2)}
+	case 2:
+		return step{Op: memsim.Op{Kind: "DeleteTag", Repo: repos[0], Tag: tagPool[r.Intn(len(tagPool))]}, Dyn: "dellast", Page: 1 + r.Intn(2)}
+	}
+	return step{Op: w.httpOp()}
+}
+
 // runHTTPWindow: setup and probes directly on the registry (thread 0), the concurrent phase
 // through ociclient -> ociserver over the same registry.
-func runHTTPWindow(rnd *rand.Rand, nthreads, perThread int) (h histCase, ok bool) {
+func runHTTPWindow(rnd *rand.Rand, nthreads, perThread int, walk bool) (h histCase, ok bool) {
 	reg := ocimem.New()
 	srv := httptest.NewServer(ociserver.New(reg, nil))
 	defer srv.Close()
@@ -400,8 +651,20 @@ func runHTTPWindow(rnd *rand.Rand, nthreads, perThread int) (h histCase, ok bool
 		return h, false
 	}
 	rec := newRecorder(reg, nthreads)
+	defer rec.closeAll()
 	rec.exc = memsim.NewExec(cl, false)
+	rec.exc.CallCtx = true
 	w := &window{rnd: rnd}
+	tagPool := tags
+	if walk {
+		tagPool = walkTags
+		for _, t := range walkTags {
+			if rnd.Intn(8) > 0 {
+				mi := rnd.Intn(2)
+				rec.do(0, memsim.Op{Kind: "PushManifest", Repo: repos[0], Tag: t, Content: mans[mi], Media: mmedia[mi]})
+			}
+		}
+	}
 	rec.do(0, pushBlobOp(repos[0], blobs[0]))
 	rec.do(0, pushBlobOp(repos[0], blobs[1]))
 	for i := range mans {
@@ -413,11 +676,14 @@ func runHTTPWindow(rnd *rand.Rand, nthreads, perThread int) (h histCase, ok bool
 			rec.do(0, memsim.Op{Kind: "PushManifest", Repo: repos[0], Tag: t, Content: mans[i], Media: mmedia[i]})
 		}
 	}
-	plans := make([][]memsim.Op, nthreads)
+	plans := make([][]step, nthreads)
 	for t := range plans {
 		for k := 0; k < perThread; k++ {
-			plans[t] = append(plans[t], w.httpOp())
+			plans[t] = append(plans[t], w.httpStep(tagPool))
 		}
+	}
+	if walk {
+		plans[0], plans[1] = w.walkPlans(repos[0], 3)
 	}
 	var start atomic.Bool
 	var ready, wg sync.WaitGroup
@@ -429,9 +695,7 @@ func runHTTPWindow(rnd *rand.Rand, nthreads, perThread int) (h histCase, ok bool
 			ready.Done()
 			for !start.Load() {
 			}
-			for _, op := range plans[t] {
-				rec.doHTTP(t, op)
-			}
+			runPlan(t, plans[t], rec.doHTTP)
 		}(t)
 	}
 	ready.Wait()
@@ -443,7 +707,11 @@ func runHTTPWindow(rnd *rand.Rand, nthreads, perThread int) (h histCase, ok bool
 	for i := range mans {
 		rec.do(0, memsim.Op{Kind: "ResolveManifest", Repo: repos[0], Digest: sha(mans[i])})
 	}
-	return histCase{Kind: "history", Origin: "random", HTTP: true, NThreads: nthreads, Events: rec.events()}, true
+	sc := ""
+	if walk {
+		sc = "walk"
+	}
+	return histCase{Kind: "history", Origin: "random", Scenario: sc, HTTP: true, NThreads: nthreads, Events: rec.events()}, true
 }
 
 // ---------------------------------------------------------------- forced schedules
@@ -482,14 +750,16 @@ func holdRegistryLock(reg *ocimem.Registry, repo string) (done chan struct{}) {
 func runScenario(name string) histCase {
 	reg := ocimem.New()
 	rec := newRecorder(reg, 3)
+	defer rec.closeAll()
 	repo := repos[0]
 	good := []byte("good")
 	rec.do(0, memsim.Op{Kind: "PushBlobChunkedResume", Repo: repo, ID: "up0", Off: 0})
 	rec.do(0, memsim.Op{Kind: "WWrite", W: 0, Content: good})
+	rec.pin(0)
 	var wg sync.WaitGroup
 	async := func(t int, op memsim.Op) {
 		wg.Add(1)
-		go func() { defer wg.Done(); rec.do(t, op) }()
+		go func() { defer wg.Done(); rec.do(t, op); rec.release(t) }()
 		time.Sleep(60 * time.Millisecond)
 	}
 	switch name {
@@ -758,6 +1028,9 @@ func child(cfg *hx.Config, changed []string) {
 			co.Histories = append(co.Histories, runScenario(sc))
 		}
 	}
+	// the large buffer is only needed by the forced schedules: give it back, the machine is shared
+	bigData = nil
+	debug.FreeOSMemory()
 	lap("forced")
 	// random windows
 	n := 700
@@ -772,14 +1045,18 @@ func child(cfg *hx.Config, changed []string) {
 		case i%10 == 9:
 			nth, per = 5+rnd.Intn(4), 1
 		}
-		co.Histories = append(co.Histories, runWindow(rnd, nth, per, i%7 == 3))
+		walk := i%4 == 2
+		if walk && nth > 4 {
+			walk = false
+		}
+		co.Histories = append(co.Histories, runWindow(rnd, nth, per, i%7 == 3, walk))
 	}
 	nh := 150
 	if cfg.Thorough() {
 		nh = 1200
 	}
 	for i := 0; i < nh; i++ {
-		if h, ok := runHTTPWindow(rnd, 2+rnd.Intn(3), 1+rnd.Intn(2)); ok {
+		if h, ok := runHTTPWindow(rnd, 2+rnd.Intn(3), 1+rnd.Intn(2), i%3 == 1); ok {
 			co.Histories = append(co.Histories, h)
 		}
 	}
